@@ -4,6 +4,7 @@ package main
 import (
 	"fmt"
 	"os"
+	"strconv"
 
 	"verif/checks"
 	"verif/explore"
@@ -15,6 +16,11 @@ func main() {
 		os.Exit(2)
 	}
 	prop, tier := os.Args[1], os.Args[2]
+	if prop == "C18obs" {
+		k, _ := strconv.Atoi(tier)
+		checks.C18obs(k)
+		return
+	}
 	if tier != "quick" && tier != "thorough" {
 		fmt.Fprintln(os.Stderr, "tier must be quick or thorough")
 		os.Exit(2)
